@@ -70,6 +70,7 @@ class Runtime:
         self.save_calls = 0
         self.dest_start = {}
         self.act = 0
+        self.seqcount = {}
 
     def reset(self, loop, runs, virtual=True, collab=None, jitter=None):
         self.loop = loop
@@ -83,6 +84,7 @@ class Runtime:
         self.collab = collab or {}
         self.ev_calls = 0
         self.save_calls = 0
+        self.seqcount = {}
 
     # ---- terms -----------------------------------------------------------------------------------
     def to_term(self, v):
@@ -151,6 +153,14 @@ class Runtime:
         spec = self.runs[run]
         plan = spec.get('plan', {}).get(nid) or ['ok']
         o = plan[min(k, len(plan)) - 1]
+        seq = spec.get('recseq', {}).get(nid)
+        if seq is not None and o == 'ok':
+            with self.lock:
+                idx = self.seqcount.get((run, nid), 0)
+                self.seqcount[(run, nid)] = idx + 1
+            if idx < len(seq) and seq[idx] == 'R':
+                return 'rec:%d' % (idx + 1)
+            return o
         req = spec.get('recreq', {}).get(nid)
         if req is not None and o == 'ok':
             it = max_data_index(kw, nid)
